@@ -803,12 +803,15 @@ def shape_ok(model, sd, params):
     except Exception:
         return False
     targets = set()
+    patch_targets = set()
     mp = {op["a"]: op["b"] for op in sd["ops"] if op["k"] == "retarget"}
     for sname in m.section_order:
         for u in m.sections[sname]:
             for a in u.toks:
                 if a.kind == "insn" and a.ikind in ("jmp", "jcc", "call") and a.target:
                     targets.add(mp.get(a.target, a.target))
+                    if a.id == "x":
+                        patch_targets.add(mp.get(a.target, a.target))
     for op in sd["ops"]:
         for l in (op.get("patch") or {}).get("lines") or []:
             if l.get("v") in ("jmp", "jcc", "call") and l.get("t") and not l.get("ttemp"):
@@ -816,6 +819,8 @@ def shape_ok(model, sd, params):
                 # i.e. before the retargets: its own operand must label code
                 targets.add(l["t"])
                 targets.add(mp.get(l["t"], l["t"]))
+                patch_targets.add(l["t"])
+                patch_targets.add(mp.get(l["t"], l["t"]))
     # a control-flow target must not be an end-of-block label (the edge
     # would lead to the start of its block)
     for sname in m.section_order:
@@ -823,7 +828,11 @@ def shape_ok(model, sd, params):
             for t in u.toks:
                 if t.kind == "label" and t.name in targets and t.at_end:
                     return False
-    # rule 2: control-flow targets label code
+    # rule 2: control-flow targets label code (not demanded where only the
+    # tables / well-formedness are judged: a deleted branch target in front
+    # of data is kept as a zero-sized code block, doc/Deletion.md)
+    if params.get("allow_target_on_data"):
+        targets = patch_targets  # (the assembler refuses a patch that branches to data)
     for sname in m.section_order:
         for u in m.sections[sname]:
             toks = u.toks
@@ -970,8 +979,46 @@ def gen_same_patch_session(rng, model, params, index):
     return sd
 
 
+def _zero_history_session(rng, model):
+    """Sessions biased towards the states around kept zero-sized blocks (a
+    two-step conjunction that uniform sampling reaches only every ~10^5
+    runs): (1) delete - without proxy - a code block that is a branch/call
+    target and is followed by data or by nothing, so that it is kept as a
+    zero-sized block; (2) once such a block exists, delete the block in front
+    of it."""
+    targets = {t.target for _, u in model.units() for t in u.toks if t.kind == "insn" and t.ikind in ("jmp", "jcc", "call") and t.target}
+    labels_at = {}
+    for _, u in model.units():
+        for t in u.toks:
+            if t.kind == "label" and t.att is not None and not t.at_end:
+                labels_at.setdefault(t.att.key, set()).add(t.name)
+    zero_next = []
+    cands = []
+    for lst in model.span_list.values():
+        for i, sp in enumerate(lst):
+            nxt = lst[i + 1] if i + 1 < len(lst) else None
+            if sp.kind != "code" or not sp.size or not sp.tok_ids:
+                continue
+            if nxt is not None and nxt.kind == "code" and nxt.size == 0:
+                zero_next.append(sp)
+            if (nxt is None or nxt.kind == "data") and labels_at.get(sp.key, set()) & targets:
+                cands.append(sp)
+    pick = None
+    if zero_next and rng.random() < 0.7:
+        pick = rng.choice(zero_next)
+    elif cands:
+        pick = rng.choice(cands)
+    if pick is None:
+        return None
+    return {"ops": [{"k": "delblock", "tok": pick.tok_ids[0], "proxy": False}], "reg_order": [0]}
+
+
 def _gen_session(rng, model, params, index):
     """Generate one session's ops against the current spans of the model."""
+    if params.get("zero_hist_p") and rng.random() < params["zero_hist_p"]:
+        sd = _zero_history_session(rng, model)
+        if sd is not None:
+            return sd
     if rng.random() < params.get("same_patch_p", 0.0):
         sd = gen_same_patch_session(rng, model, params, index)
         if sd is not None:
